@@ -247,7 +247,7 @@ def run_check(pid, spec, tier, seed, replay=None, keep=False):
     t0 = time.time()
     notes = []
     known = load_known()
-    bdir = os.path.join(BUILD, pid)
+    bdir = os.path.join(BUILD, pid if REPO == "/repo" else pid + "-" + hashlib.sha1(REPO.encode()).hexdigest()[:6])
     ov, mod = gen_overlay(notes, bdir)
     bindir = os.path.join(bdir, "bin")
     os.makedirs(bindir, exist_ok=True)
